@@ -157,16 +157,21 @@ TGExitStep(q, tg, t) ==
               IN [q |-> SetPc(setx(q2, nx), t, "loop"), tg |-> tg1]
          ELSE [q |-> SetPc(q, t, "loop"), tg |-> tg1]
     [] pc = "nochild" ->
-         IF IsExc(Reg(q, t))
-         THEN LET r == ScopeExit(q, t, Reg(q, t)) IN
-              [q |-> IF IsExc(r.reg) THEN Raise(r.q, t, r.reg) ELSE Ret(r.q, t),
-               tg |-> [tg EXCEPT !.G[t].active = FALSE, !.G[t].excs = {}]]
-         ELSE IF tg.G[t].tasks # {}
-         THEN \* tasks were started in the group during the checkpoint: wait for them
-              [q |-> SetPc(ScopeEnter(q, t, FALSE, INF, FALSE,
-                                      [n |-> 0, kind |-> "gwait", cl |-> 0, dl |-> INF]), t, "loop"),
-               tg |-> tg]
-         ELSE finish(q, tg, xv)
+         \* back from the cancel-shielded checkpoint.  A (native) CancelledError that got through is
+         \* handled like in the wait loop: cancel the group, remember it as exc_val, go on
+         LET r == Reg(q, t)
+             q1 == IF IsCancel(r) THEN ScopeCancel(q, gs) ELSE q
+             nx == IF IsCancel(r) /\ (~IsExc(xv) \/ (IsCancel(xv) /\ ~IsAnyioCancel(r))) THEN r ELSE xv
+         IN IF IsExc(r) /\ ~IsCancel(r)
+            THEN LET x == ScopeExit(q, t, r) IN
+                 [q |-> IF IsExc(x.reg) THEN Raise(x.q, t, x.reg) ELSE Ret(x.q, t),
+                  tg |-> [tg EXCEPT !.G[t].active = FALSE, !.G[t].excs = {}]]
+            ELSE IF tg.G[t].tasks # {}
+            THEN \* tasks were started in the group during the checkpoint: wait for them
+                 [q |-> SetPc(ScopeEnter(setx(q1, nx), t, FALSE, INF, FALSE,
+                                         [n |-> 0, kind |-> "gwait", cl |-> 0, dl |-> INF]), t, "loop"),
+                  tg |-> tg]
+            ELSE finish(q1, tg, nx)
 
 \* TaskGroup.start() (:936-973).  Frame: a = child, b = [h |-> group host, exc |-> pending exception]
 TGStartEnabled(q, t) == q.run = t /\ q.T[t].stack # <<>> /\ Top(q, t).f = "tg_start"
